@@ -95,6 +95,28 @@ def gen_graph(rng, version):
                 i2 = ("0", "%d$" % lb)
                 feats.add("containment")
             lines.append("\t".join(["E", eid, a + oa, b + ob, i1[0], i1[1], i2[0], i2[1], rng.choice(["*", "3M"])] + tags))
+    if rng.random() < 0.35:
+        # an identifier which the automatic copy names would use is carried by a line which is
+        # not a segment (the namespace is shared)
+        s0 = rng.choice(names)
+        nm = s0 + rng.choice(["*2", "*2", "*3"])
+        if s0[-2:-1] == "*" and s0[-1].isdigit():
+            nm = s0[:-1] + str(int(s0[-1]) + 1)
+        if nm not in names:
+            feats.add("copy-name-taken-by-nonsegment")
+            if version == "gfa1":
+                if rng.random() < 0.5:
+                    lines.append("P\t%s\t%s+\t*" % (nm, s0))
+                else:
+                    o = rng.choice(names)
+                    k1 = ("L", s0, "+", o, "+")
+                    if k1 in seen or ("L", o, "-", s0, "-") in seen:
+                        lines.append("P\t%s\t%s+\t*" % (nm, o))
+                    else:
+                        lines.append("L\t%s\t+\t%s\t+\t*\tID:Z:%s" % (s0, o, nm))
+                        seen.add(k1)
+            else:
+                lines.append(rng.choice(["U\t%s\t%s", "O\t%s\t%s+"]) % (nm, rng.choice(names)))
     return lines, names, sorted(feats)
 
 
